@@ -11,7 +11,7 @@ use crate::{
 
 use async_trait::async_trait;
 use futures::channel::{mpsc, oneshot};
-use futures::{select, FutureExt, StreamExt};
+use futures::{select_biased, FutureExt, StreamExt};
 use parking_lot::Mutex;
 
 use std::collections::HashMap;
@@ -110,7 +110,11 @@ impl MultiPeerBackend for PubSocketBackend {
         async_rt::task::spawn(async move {
             let mut stop_receiver = stop_receiver.fuse();
             loop {
-                select! {
+                // Biased: once this task has been told to stop - its entry was replaced because
+                // the peer registered again under the same identity - the end of the OLD
+                // connection must not be taken for the departure of the peer: the entry that
+                // `peer_disconnected` would remove is the new connection's.
+                select_biased! {
                      _ = stop_receiver => {
                          break;
                      },
